@@ -18,6 +18,7 @@ means a check, a step or an operand is gone:
   new   T::V              a value of workspace struct / enum variant T::V is built
   fld   T::V.f <form>     ... with field f initialised from this form
   set   .f <form>         a field named f is assigned a value of this form
+  ord   A < B             procedure A is called before procedure B on every path that calls B
   grd   X <= [tests]      the rejection test / procedure call X is made under exactly these non-rejecting tests (each with the side taken)
 
 New atoms (added checks, added steps, new functions) are never an alarm. A function of the reference that no longer exists is looked for in
@@ -179,7 +180,7 @@ def atoms(bodies, S=None):
 
 
 def _atoms(bodies, S):
-    out = {k: set() for k in ("call", "recv", "arg", "dec", "must", "mustq", "mustcall", "new", "fld", "set", "grd")}
+    out = {k: set() for k in ("call", "recv", "arg", "dec", "must", "mustq", "mustcall", "new", "fld", "set", "grd", "ord")}
     for b in bodies:
         try:
             logb = FP.log_region(b)
@@ -303,6 +304,15 @@ def _atoms(bodies, S):
                 proc = (dty in ("()", "!") or re.match(r"^(core::result::|std::result::)?Result<\(\)", dty)) if is_ws else bool(MUTATOR_STD.search(c.callee) or (c.res and MUTATOR_STD.search(c.res)))
                 if proc:
                     targets.append((c.bb, name))
+            # order of effects: procedure A is completed before procedure B is called on every path that calls B (A's block dominates B's).
+            # Swapping two effects, or moving one across a branch / loop boundary / early return, loses the fact; moving BOTH into a helper
+            # keeps it there (and the loss here is forgiven with the calls that moved).
+            procs = [(blk_id, tid) for blk_id, tid in targets if not tid.startswith("[")]
+            if 2 <= len(procs) <= 40:
+                for ba, na in procs:
+                    for bb_, nb in procs:
+                        if ba != bb_ and na != nb and b.dominates(ba, bb_) and not b.dominates(bb_, ba):
+                            out["ord"].add("%s < %s" % (na, nb))
             for blk_id, tid in targets:
                 gs = set()
                 for sw, rt, rf, core, is_match in guards:
